@@ -634,7 +634,55 @@ def root(x: f32[{hi + 3}], y: f32[{hi + 3}], z: f32[{hi + 3}]):
     return GenProgram(HEADER + body, "root", [], [], {"template": "adjacent_loops", "prefer_ops": ["join_loops", "join_loops", "fuse", "remove_loop", "reorder_stmts"]})
 
 
-ALL = [t_temp2d, t_temp2d_call, t_two_loops, t_reduce_const, t_sliding, t_two_temps, t_split_range, t_writes, t_matmul, t_conv1d, t_blur, t_name_clash, t_config_loop, t_mod_trip, t_quasi, t_config_arg, t_config_first_iter, t_dup_blocks, t_nested_windows, t_sig_calls, t_adjacent_loops]
+def t_config_callees(rng):
+    """configuration state that flows only through callees: a sub-procedure whose last effect is a
+    configuration write, called twice with the same write repeated after each call; readers that see
+    the field only inside another callee (the caller has no syntactic read)"""
+    v1, v2 = rng.sample([1, 2, 3, 4, 5], 2)
+    real = rng.random() < 0.5
+    if real:
+        w_callee, w_caller = "Cfg.a = 2.0", _c(rng, ["Cfg.a = 4.0", "Cfg.a = 2.0", "Cfg.a = sc"])
+        read_in = "dst[0] = Cfg.a"
+        read_here = _c(rng, ["y[1] = Cfg.a", "pass", "pass"])
+    else:
+        w_callee, w_caller = f"Cfg.k = {v1}", f"Cfg.k = {_c(rng, [v1, v2, v2])}"
+        read_in = f"if Cfg.k == {v2}:\n        dst[0] = 1.0"
+        read_here = _c(rng, [f"if Cfg.k == {v2}:\n        y[1] = 2.0", "pass", "pass"])
+    order = _c(rng, ["wcwc", "wcwc", "wr", "wcr", "wcwr"])
+    calls = []
+    for ch in order:
+        if ch == "w":
+            calls.append(f"setcfg({_c(rng, ['x', 'y'])})")
+        elif ch == "c":
+            calls.append(w_caller)
+        else:
+            calls.append("reader(y)")
+    if "r" not in order:
+        calls.append(_c(rng, ["reader(y)", read_here, "reader(x)"]))
+    calls.append(read_here)
+    body_calls = "\n    ".join(calls)
+    body = f"""@config
+class Cfg:
+    k: index
+    a: f32
+
+@proc
+def setcfg(dst: f32[4]):
+    dst[0] = 1.0
+    {w_callee}
+
+@proc
+def reader(dst: f32[4]):
+    {read_in}
+
+@proc
+def root(x: f32[4], y: f32[4], sc: f32):
+    {body_calls}
+"""
+    return GenProgram(HEADER + body, "root", ["setcfg", "reader"], ["Cfg"], {"template": "config_callees", "prefer_ops": ["delete_config", "delete_config", "write_config", "reorder_stmts", "bind_config", "inline"]})
+
+
+ALL = [t_temp2d, t_temp2d_call, t_two_loops, t_reduce_const, t_sliding, t_two_temps, t_split_range, t_writes, t_matmul, t_conv1d, t_blur, t_name_clash, t_config_loop, t_mod_trip, t_quasi, t_config_arg, t_config_first_iter, t_dup_blocks, t_nested_windows, t_sig_calls, t_adjacent_loops, t_config_callees]
 
 
 def any_template(rng):
@@ -646,4 +694,4 @@ def quasi_template(rng):
 
 
 def config_template(rng):
-    return rng.choice([t_config_flow, t_config_loop, t_config_arg, t_config_arg, t_config_first_iter, t_config_first_iter])(rng)
+    return rng.choice([t_config_flow, t_config_loop, t_config_arg, t_config_arg, t_config_first_iter, t_config_first_iter, t_config_callees, t_config_callees, t_config_callees])(rng)
